@@ -7,12 +7,12 @@ package c20
 // requestBlocks + bSyncQueue (AddBlock in index order), then ordinary block processing.
 
 import (
-	"runtime"
 	"bytes"
 	"errors"
 	"fmt"
 	"os"
 	"path/filepath"
+	"runtime"
 	"sort"
 	"strings"
 
@@ -147,6 +147,18 @@ func genSCase(t *rapid.T) SCase {
 	}
 	total := nb + 2
 	I := c.Chain.StateSyncInterval
+	// The block right after every synchronisation point asks the Ledger contract about the point's block (the
+	// in-memory top block of the node is rebuilt by the state jump). Blocks[i] is the block of height i+3.
+	if rapid.Bool().Draw(t, "ask_top") {
+		for h := I + 1; h-3 < len(c.Blocks); h += I {
+			if h-3 < 0 {
+				continue
+			}
+			q := ck.Action{Kind: "ledger_q", From: rapid.IntRange(0, 3).Draw(t, "asker"), A: 0, B: rapid.IntRange(0, 1).Draw(t, "txidx"),
+				N: rapid.Int64Range(0, 1).Draw(t, "q"), Nonce: rapid.Uint32().Draw(t, "qnonce")}
+			c.Blocks[h-3].Txs = append([]ck.Action{q}, c.Blocks[h-3].Txs...)
+		}
+	}
 	c.InitAt = rapid.IntRange(2*I, total-1).Draw(t, "init_at")
 	if rapid.IntRange(0, 3).Draw(t, "exact") == 0 { // the peer is exactly at a sync point: header P+1 does not exist yet
 		c.InitAt = (c.InitAt / I) * I
